@@ -13,16 +13,19 @@ git -C /repo worktree add --detach -q $WT HEAD || exit 2
 trap 'git -C /repo worktree remove --force $WT 2>/dev/null; rm -rf $WT' EXIT
 cp /repo/Cargo.lock $WT/Cargo.lock 2>/dev/null
 git -C $WT apply $S/patch.diff || { echo "$NAME: patch does not apply to /repo HEAD"; exit 2; }
-mkdir -p $S/evidence_$TIER $S/replay
+OWN=$(python3 -c "import json;print(json.load(open('$S/meta.json'))['property'])")
+SUF=""; [ "$P" != "$OWN" ] && SUF="_$P"
+mkdir -p $S/evidence_$TIER$SUF $S/replay
 START=$(date +%s)
-VERIF_REPO=$WT VERIF_EVIDENCE_DIR=$S/evidence_$TIER VERIF_REPLAY_DIR=$S/replay ./check $P --tier $TIER > $S/check_$TIER.log 2>&1; RC=$?
+VERIF_REPO=$WT VERIF_EVIDENCE_DIR=$S/evidence_$TIER$SUF VERIF_REPLAY_DIR=$S/replay ./check $P --tier $TIER > $S/check_$TIER$SUF.log 2>&1; RC=$?
 END=$(date +%s)
-VIOL=$(grep -c "^VIOLATION" $S/check_$TIER.log)
+VIOL=$(grep -c "^VIOLATION" $S/check_$TIER$SUF.log)
 python3 - "$S/meta.json" "$P" "$TIER" "$RC" "$VIOL" "$((END-START))" "$(git rev-parse --short HEAD)" <<'PY'
 import json,sys
 path,p,tier,rc,viol,secs,vh=sys.argv[1:]
 m=json.load(open(path))
-m.setdefault("runs",{})[tier]={"cmd":"VERIF_REPO=<worktree with patch.diff applied> ./check %s --tier %s"%(p,tier),"exit":int(rc),"violation_lines":int(viol),
+key=tier if p==m.get("property") else "%s_%s"%(tier,p)   # a cross-check under another property's check does not overwrite the seed's own result
+m.setdefault("runs",{})[key]={"cmd":"VERIF_REPO=<worktree with patch.diff applied> ./check %s --tier %s"%(p,tier),"exit":int(rc),"violation_lines":int(viol),
   "wall_s":int(secs),"detected":int(rc)==1 and int(viol)>0,"verif_commit":vh}
 json.dump(m,open(path,'w'),indent=1)
 PY
